@@ -14,7 +14,10 @@ def main():
     for t in bad:
         sys.stderr.write("FAILED %s[%s]\n%s\n" % (t.name, t.flavor, t.error[-2000:]))
     print("prebuilt %d targets (%d failed)" % (len(res), len(bad)))
-    return 1 if bad else 0
+    # Setup only warms the cache.  A generated type-level program (C09/C11) may legitimately fail here: the check itself
+    # drops value-dependent constant configurations and rebuilds; a hand-written harness that does not compile makes its
+    # check inconclusive (exit 2) when it runs.  Neither is a reason to fail the setup step.
+    return 0
 
 
 if __name__ == "__main__":
